@@ -312,6 +312,31 @@ class StereoCondensedReactionGraph(StereoMolGraph, CondensedReactionGraph):
 
         return relabeled_scrg
 
+    def subgraph(self, atoms: Iterable[AtomId]) -> Self:
+        """Returns a subgraph of the graph with the given atoms, the stereo
+        information and the stereo changes that lie completely in the subgraph
+
+        :param atoms: Atoms to be used for the subgraph
+        :return: Subgraph
+        """
+        atoms = tuple(atoms)  # the argument may be a one-shot iterable
+        new_graph = super().subgraph(atoms)
+        atom_set = set(atoms)
+        for table, new_table in (
+            (self._atom_stereo_change, new_graph._atom_stereo_change),
+            (self._bond_stereo_change, new_graph._bond_stereo_change),
+        ):
+            for key, change_dict in table.items():
+                kept = ChangeDict(
+                    (change, stereo)
+                    for change, stereo in change_dict.items()
+                    if stereo is not None
+                    and all(a is None or a in atom_set for a in stereo.atoms)
+                )
+                if kept:
+                    new_table[key] = kept
+        return new_graph
+
     def reactant(self, keep_attributes: bool = True) -> StereoMolGraph:
         """
         Returns the reactant of the reaction
@@ -485,6 +510,7 @@ class StereoCondensedReactionGraph(StereoMolGraph, CondensedReactionGraph):
         :param mol_graphs: list of MolGraph objects
         :return: Returns Combined MolGraph
         """
+        mol_graphs = tuple(mol_graphs)  # may be a one-shot iterable
         graph = cls(super().compose(mol_graphs))
         for mol_graph in mol_graphs:
             graph._atom_stereo_change.update(
